@@ -123,6 +123,8 @@ pub struct Worker {
     child: Child,
     rx: Receiver<String>,
     err_rx: Receiver<String>,
+    /// where the last job that ran out of time was executing: the innermost usvg/resvg function on its stack
+    pub last_hang: Option<String>,
 }
 
 impl Worker {
@@ -153,7 +155,7 @@ impl Worker {
                 }
             }
         });
-        Worker { child, rx, err_rx }
+        Worker { child, rx, err_rx, last_hang: None }
     }
 
     fn drain_err(&self) -> String {
@@ -183,8 +185,26 @@ impl Worker {
                 Outcome::Answer(l)
             }
             Err(std::sync::mpsc::RecvTimeoutError::Timeout) => {
+                // ask the child where it is (SIGUSR1: it prints HANG-AT and exits), then make sure it is gone
+                unsafe {
+                    libc::kill(self.child.id() as i32, libc::SIGUSR1);
+                }
+                for _ in 0..100 {
+                    if let Ok(Some(_)) = self.child.try_wait() {
+                        break;
+                    }
+                    std::thread::sleep(Duration::from_millis(50));
+                }
                 let _ = self.child.kill();
                 let _ = self.child.wait();
+                std::thread::sleep(Duration::from_millis(30));
+                let mut site = None;
+                while let Ok(l) = self.err_rx.try_recv() {
+                    if let Some(r) = l.strip_prefix("HANG-AT ") {
+                        site = Some(r.trim().to_string());
+                    }
+                }
+                self.last_hang = site;
                 Outcome::Timeout
             }
             Err(_) => {
@@ -225,8 +245,43 @@ pub fn hex_decode(s: &str) -> Vec<u8> {
 /// child side: `job` lines →  answers.  Jobs:
 ///   parse <dpi> <hexsvg>                 → ok <nodes> | err <kind> | panic <site>
 ///   render <w> <h> <6 ts bits> <cap> <hexsvg> → ok maxalloc=<n> peak=<n> | err .. | panic <site>
+extern "C" fn on_usr1(_: i32) {
+    // the job is over budget: say where it is and leave (the process is discarded anyway, so the
+    // allocation a backtrace needs is acceptable here)
+    CAP.store(usize::MAX, Ordering::Relaxed);
+    let bt = std::backtrace::Backtrace::force_capture().to_string();
+    let mut inner_crate: Option<String> = None;
+    let mut func: Option<String> = None;
+    for l in bt.lines() {
+        let t = l.trim();
+        let Some(i) = t.find(": ") else { continue };
+        if !t[..i].chars().all(|c| c.is_ascii_digit()) {
+            continue;
+        }
+        let name = t[i + 2..].trim_start_matches('<');
+        let krate = name.split("::").next().unwrap_or("").to_string();
+        let foreign = ["std", "core", "alloc", "vh", "__rustc", "libc", "backtrace", "rustc_demangle", "_", ""].contains(&krate.as_str()) || krate.starts_with("__") || !krate.chars().all(|c| c.is_ascii_alphanumeric() || c == '_');
+        if inner_crate.is_none() && !foreign {
+            inner_crate = Some(krate.clone());
+        }
+        if (name.starts_with("resvg::") || name.starts_with("usvg::")) && !name.contains("{{closure}}") {
+            func = Some(name.split("::h").next().unwrap_or(name).to_string());
+            break;
+        }
+    }
+    // (the crate of the innermost frame goes to the log only: it varies with the instant of the sample)
+    let msg = format!("HANG-IN {}\nHANG-AT {}\n", inner_crate.unwrap_or_else(|| "?".into()), func.unwrap_or_else(|| "?".into()));
+    unsafe {
+        libc::write(2, msg.as_ptr() as *const libc::c_void, msg.len());
+        libc::_exit(98);
+    }
+}
+
 pub fn child_main() {
     crate::pan::install_hook();
+    unsafe {
+        libc::signal(libc::SIGUSR1, on_usr1 as usize);
+    }
     let stdin = std::io::stdin();
     let mut out = std::io::stdout();
     for line in stdin.lock().lines().map_while(Result::ok) {
